@@ -284,6 +284,45 @@ impl XSpec {
         }
         RecordBatch::try_new(self.schema(), arrays).expect("generated batch")
     }
+    /// Same schema, but no null anywhere (all fields non-nullable, recursively). Used for the
+    /// legacy format, which has no null support (docs/src/format/file/versioning.md).
+    pub fn without_nulls(&self) -> Self {
+        fn strip(dt: &DataType) -> DataType {
+            let f = |c: &Arc<Field>| Arc::new(Field::new(c.name(), strip(c.data_type()), false));
+            match dt {
+                DataType::List(c) => DataType::List(f(c)),
+                DataType::LargeList(c) => DataType::LargeList(f(c)),
+                DataType::FixedSizeList(c, k) => DataType::FixedSizeList(f(c), *k),
+                DataType::Struct(cs) => DataType::Struct(cs.iter().map(f).collect()),
+                DataType::Null => DataType::Int32,
+                other => other.clone(),
+            }
+        }
+        Self {
+            cols: self
+                .cols
+                .iter()
+                .map(|c| XCol {
+                    name: c.name.clone(),
+                    ty: strip(&c.ty),
+                    nullable: false,
+                    null_eighths: 0,
+                    small: c.small,
+                })
+                .collect(),
+        }
+    }
+    pub fn has_dictionary(&self) -> bool {
+        fn has(dt: &DataType) -> bool {
+            match dt {
+                DataType::Dictionary(_, _) => true,
+                DataType::List(c) | DataType::LargeList(c) | DataType::FixedSizeList(c, _) => has(c.data_type()),
+                DataType::Struct(cs) => cs.iter().any(|c| has(c.data_type())),
+                _ => false,
+            }
+        }
+        self.cols.iter().any(|c| has(&c.ty))
+    }
 }
 
 fn gen_valid(rng: &mut Rng, n: usize, nullable: bool, eighths: u8) -> Vec<bool> {
